@@ -166,6 +166,14 @@ def judge (impl expected : String) (whenDiff : String) : String :=
 def c04step (d : D) (op : String) (impl : String) : D × String :=
   let ans (d : D) (res verdict : String) (br : List String := []) : D × String :=
     ({ d with m := compact d.m }, res ++ sep ++ verdict ++ (if br.isEmpty then "" else " br=" ++ ",".intercalate br))
+  -- `batchf` arms one transient failure of the next segment Persist (writer side). Whichever batch meets it is
+  -- applied all the same (its introduction happened) but, being a safe batch, reports the persist error; the
+  -- persister releases its snapshot, retries and succeeds.
+  let batchStep (ops : String) : D × String :=
+    if impl == "ok" then ans { d with abs := applyBatch d.abs (ops.splitOn ",") } "ok" "ok" ["batch"]
+    else if impl == "err:persist" then
+      ans { d with abs := applyBatch d.abs (ops.splitOn ",") } "err:persist" "ok" ["batch", "batch-persist-fails"]
+    else ans d "ok" "ok"
   if impl == "dead" then ans d "dead" "na"
   else if impl.startsWith "fault" then ans { d with dead := true } "no-fault" "bad:reader-fault" ["fault"]
   else if impl == "na" then ans d "na" "na"
@@ -206,16 +214,8 @@ def c04step (d : D) (op : String) (impl : String) : D × String :=
             ++ (if totalCloses m2 > totalCloses d.m then ["closer-ran"] else []))
         | none => ans d "rejected:persisted" "na"
       | none => ans d "rejected:persisted-unknown-snapshot" "na"
-  | ["batch", ops] =>
-      if impl == "ok" then ans { d with abs := applyBatch d.abs (ops.splitOn ",") } "ok" "ok" ["batch"]
-      else ans d "ok" "ok"
-  | ["batchf", ops] =>
-      -- a batch whose first persist attempt meets an injected failure: it is applied either way (the
-      -- introduction happened); a safe batch reports the persist error, an unsafe one (or one whose failure
-      -- was consumed by a concurrent merge) reports success
-      if impl == "ok" || impl == "err:persist" then
-        ans { d with abs := applyBatch d.abs (ops.splitOn ",") } impl "ok" ["batch", "batch-persist-fails"]
-      else ans d "ok" "ok"
+  | ["batch", ops] => batchStep ops
+  | ["batchf", ops] => batchStep ops
   | ["open", slot, sname, _epoch] =>
       match d.m.root, d.snapByName sname, slot.toNat? with
       | some r, some s, some k =>
